@@ -430,6 +430,37 @@ fn step(rng: &mut Rng, sink: &mut Sink, w: &mut World, focus: &str) {
         sink.exec(&format!("bal {} {}", hex::encode(&dest), TOK));
         return;
     }
+    if focus == "C04" && rng.chance(1, 40) {
+        // a transfer relayed BETWEEN the two steps of an inbound token deployment (the manager exists, its token does not
+        // yet): nothing can be handed out, so the transfer must fail and its approval must stay — then the issuing step
+        let tid = vec![rng.below(100) as u8 + 150; 32];
+        if !w.ids.contains(&tid) {
+            w.ids.push(tid.clone());
+        }
+        let dep = deploy_payload(&tid, b"Remote Token", b"RTK", 6, &[]);
+        let did = w.approve(rng, sink, ETH, ETH_ITS, &dep, None);
+        w.execute(sink, &user(2), ETH, &did, ETH_ITS, &dep, 0);
+        let dest = user(rng.below(6) as u8);
+        let tr = sol_enc("transfer", &[word_nat(0), tid.clone(), b"0xsrc".to_vec(), dest.clone(), word_nat(25), vec![]]);
+        let trid = w.approve(rng, sink, ETH, ETH_ITS, &tr, None);
+        w.execute(sink, &user(3), ETH, &trid, ETH_ITS, &tr, 0);
+        sink.exec(&format!("query {} isMessageExecuted {}", hex::encode(&w.gw.addr), args(&[ETH.to_vec(), trid.clone()])));
+        w.execute(sink, &user(2), ETH, &did, ETH_ITS, &dep, 50000000000000000);
+        return;
+    }
+    if focus == "C17" && rng.chance(1, 30) {
+        // a completed minter-only deployment, then the issuing call once more with the issue cost attached (a retry that
+        // arrives late): the value must not stay in the service
+        let salt = vec![rng.below(3) as u8 + 120; 32];
+        let d = user(1);
+        factory_flow(rng, sink, w, &d, &salt, 0, &user(4), true);
+        let a = vec![salt.clone(), b"My Token".to_vec(), b"MTK".to_vec(), vec![18], nat(0), user(4)];
+        let out = w.tx(sink, &d, "deployInterchainToken", 50000000000000000, "-", &a);
+        w.track(&out, PendK::Issue);
+        let its = w.its.clone();
+        sink.exec(&format!("bal {} EGLD", hex::encode(&its)));
+        return;
+    }
     if focus == "C13" && rng.chance(1, 10) {
         let c = user(rng.below(6) as u8);
         inbound_other_types(rng, sink, w, &c);
@@ -794,7 +825,9 @@ fn step(rng: &mut Rng, sink: &mut Sink, w: &mut World, focus: &str) {
                         _ => {}
                     }
                     let acceptor = if rng.chance(3, 4) { b.clone() } else { user(rng.below(6) as u8) };
-                    let out = w.tx(sink, &acceptor, "acceptOperatorship", 0, "-", &[op.clone()]);
+                    // the acceptor names the proposer — or whoever holds the role NOW, who never proposed anything
+                    let named = if rng.chance(1, 3) { w.operator.clone() } else { op.clone() };
+                    let out = w.tx(sink, &acceptor, "acceptOperatorship", 0, "-", &[named]);
                     if out.starts_with("ok") {
                         w.operator = acceptor.clone();
                     }
